@@ -7,6 +7,8 @@
 //   --spurious            the environment may return spuriously from futex waits
 //   --unaligned           use UnalignedRWLock instead of RWLock
 //   --calibrate           print CEPT=0|1 (does CompletionEventImpl::wait carry its own point?) and exit
+//   --stress ROUNDS --seed S        E5: free-running rounds (real threads, real futex, inert hooks) on RWLock and
+//                         UnalignedRWLock; one observation record per batch of rounds (see rwlock_stress.h)
 //
 // A thread executes its operations in order; an operation whose documented precondition does not
 // hold in the thread's current mode (e.g. "unlock" after a failed "try_lock") is skipped -- the
@@ -19,6 +21,7 @@
 
 #include "../ctl/ctl.h"
 #include "../ctl/drv_common.h"
+#include "rwlock_stress.h"
 
 using ctl::Json;
 
@@ -277,8 +280,74 @@ static int calibrate() {
   return r.steps > 1 ? 1 : 0;
 }
 
+// ------------------------------------------------------------------------------ E5 (free-running)
+// The lock under stress: RWLock (cache-line aligned) or UnalignedRWLock (placed so that its word
+// sits in the middle of a cache line, next to other data), used through its public interface.
+struct StressLock {
+  static constexpr int kFlavours = 2;
+  struct alignas(64) Holder {
+    int before[7];
+    dispenso::UnalignedRWLock u;
+    int after[7];
+  };
+  int fl;
+  dispenso::RWLock* a = nullptr;
+  Holder* h = nullptr;
+  explicit StressLock(int flavour) : fl(flavour) {
+    if (fl == 0)
+      a = new dispenso::RWLock();
+    else
+      h = new Holder();
+  }
+  ~StressLock() {
+    delete a;
+    delete h;
+  }
+  const char* name() const {
+    return fl == 0 ? "RWLock" : "UnalignedRWLock";
+  }
+  int slots() const {
+    return 1;
+  }
+  bool upDown() const {
+    return true;
+  }
+  void lock() {
+    fl == 0 ? a->lock() : h->u.lock();
+  }
+  bool try_lock() {
+    return fl == 0 ? a->try_lock() : h->u.try_lock();
+  }
+  void unlock() {
+    fl == 0 ? a->unlock() : h->u.unlock();
+  }
+  void lock_shared(size_t) {
+    fl == 0 ? a->lock_shared() : h->u.lock_shared();
+  }
+  bool try_lock_shared(size_t) {
+    return fl == 0 ? a->try_lock_shared() : h->u.try_lock_shared();
+  }
+  void unlock_shared(size_t) {
+    fl == 0 ? a->unlock_shared() : h->u.unlock_shared();
+  }
+  void lock_upgrade() {
+    fl == 0 ? a->lock_upgrade() : h->u.lock_upgrade();
+  }
+  void lock_downgrade() {
+    fl == 0 ? a->lock_downgrade() : h->u.lock_downgrade();
+  }
+  int residue() {
+    return fl == 0 ? a->lockWord().load() : h->u.lockWord().load();
+  }
+};
+
 int main(int argc, char** argv) {
   drv::Args a(argc, argv);
+  if (a.has("stress")) {
+    int rc = stress::run<StressLock>(a);
+    fflush(stdout);
+    _exit(rc);
+  }
   g_cept = calibrate();
   if (a.has("calibrate")) {
     printf("CEPT=%d\n", g_cept);
